@@ -4,6 +4,7 @@ package c14
 import (
 	"bufio"
 	"bytes"
+	"unicode/utf8"
 
 	"github.com/apparentlymart/go-textseg/v15/textseg"
 	"github.com/hashicorp/hcl/v2"
@@ -180,6 +181,61 @@ func slice(src []byte, r hcl.Range) []byte {
 	return src[r.Start.Byte:r.End.Byte]
 }
 
+// plainLine: the line containing off is valid UTF-8 in which every rune is its own
+// grapheme cluster up to off, so that column counting cannot depend on where token
+// boundaries fall.
+func plainLine(src []byte, off int) bool {
+	ls := off
+	for ls > 0 && src[ls-1] != '\n' {
+		ls--
+	}
+	seg := src[ls:off]
+	if !utf8.Valid(seg) {
+		return false
+	}
+	n, _ := textseg.TokenCount(seg, textseg.ScanGraphemeClusters)
+	return n == utf8.RuneCount(seg)
+}
+
+type rangeWalker struct {
+	src     []byte
+	swallow bool // signature of the finding of record C14-lead-byte-swallows-newline
+	stack   []hcl.Range
+	lastEnd []int
+}
+
+func (w *rangeWalker) Enter(n hclsyntax.Node) hcl.Diagnostics {
+	r := n.Range()
+	// (the anonymous symbol of a splat is a synthetic node that reports the marker's
+	// range, which lies before the traversal it is the source of)
+	_, anon := n.(*hclsyntax.AnonSymbolExpr)
+	if k := len(w.stack); k > 0 && !anon {
+		pr := w.stack[k-1]
+		vf.Assert(r.Start.Byte >= pr.Start.Byte && r.End.Byte <= pr.End.Byte, "child-range-inside-parent-range")
+		vf.Assert(r.Start.Byte >= w.lastEnd[k-1], "sibling-ranges-in-order-without-overlap")
+		w.lastEnd[k-1] = r.End.Byte
+	}
+	for _, p := range []hcl.Pos{r.Start, r.End} {
+		if p.Byte < 0 || p.Byte > len(w.src) {
+			continue // reported by the containment assertions
+		}
+		line, col, ok := refPos(w.src, 0, p.Byte)
+		vf.AssertKnown(p.Line == line, "node-line-is-newline-count", "C14-lead-byte-swallows-newline", w.swallow)
+		if ok && plainLine(w.src, p.Byte) {
+			vf.AssertKnown(p.Column == col, "node-column-is-grapheme-count", "C14-lead-byte-swallows-newline", w.swallow)
+		}
+	}
+	w.stack = append(w.stack, r)
+	w.lastEnd = append(w.lastEnd, r.Start.Byte)
+	return nil
+}
+
+func (w *rangeWalker) Exit(n hclsyntax.Node) hcl.Diagnostics {
+	w.stack = w.stack[:len(w.stack)-1]
+	w.lastEnd = w.lastEnd[:len(w.lastEnd)-1]
+	return nil
+}
+
 func checkBodyRanges(src []byte, body *hclsyntax.Body) {
 	for name, attr := range body.Attributes {
 		vf.Assert(string(slice(src, attr.NameRange)) == name, "attr-name-range")
@@ -204,6 +260,9 @@ func checkBodyRanges(src []byte, body *hclsyntax.Body) {
 			vf.Assert(re.Range().Start.Byte == er.Start.Byte && re.Range().End.Byte == er.End.Byte, "expr-range-reparse-same-range")
 		}
 		vf.Assert(attr.SrcRange.Start.Byte == attr.NameRange.Start.Byte && attr.SrcRange.End.Byte == er.End.Byte, "attr-range-spans-name-to-expr")
+		// the tree of nested nodes: children inside their parent, siblings in source order without
+		// overlap, and every start/end position faithful to its byte offset
+		_ = hclsyntax.Walk(attr.Expr, &rangeWalker{src: src, swallow: sigLeadByteSwallowsNewline(src)})
 		// every nested expression node: a well-formed range inside the attribute's expression
 		hclsyntax.VisitAll(attr.Expr, func(n hclsyntax.Node) hcl.Diagnostics {
 			r := n.Range()
